@@ -116,6 +116,7 @@ func c14Property(t *rapid.T, st *Stats) {
 	}
 	expectServe := true
 	legacyRegen := false
+	legacyConverted := false
 	switch rootKind {
 	case "healthy":
 		buildHealthy("r1")
@@ -127,6 +128,7 @@ func c14Property(t *rapid.T, st *Stats) {
 		k := known{repo: "r1", tags: l.tags, mans: l.manifests, blob: l.blobs}
 		kn = append(kn, k)
 		trace = append(trace, l.desc...)
+		legacyConverted = l.converted
 		// does the conversion of this layout have to write a new response blob? The generator's own estimate misses
 		// combinations (two adoptable indexes that end up at the same subject, ...): ask a writable store on a scratch
 		// copy. This only scopes the listed finding 22 (a read-only store cannot convert such a layout), it is not
@@ -209,10 +211,15 @@ func c14Property(t *rapid.T, st *Stats) {
 		trace = append(trace, fmt.Sprintf("gcFrequency=%v", conf.Storage.GC.Frequency))
 	}
 	conf.API.PushEnabled, conf.API.DeleteEnabled, conf.API.Blob.DeleteEnabled, conf.API.Referrer.Enabled = bp(push), bp(del), bp(blobDel), bp(ref)
-	if !ref && rootKind != "healthy" {
-		// an index that is marked converted cannot be loaded with the referrers API off (documented error): keep it on
-		ref = true
-		conf.API.Referrer.Enabled = bp(true)
+	if !ref && legacyConverted {
+		// a layout that is marked converted, served with the referrers API off: the listed finding
+		if avoid("C14/referrers-off-on-converted-layout") {
+			st.Exclude("C14/referrers-off-on-converted-layout: a directory written with the referrers API on is served with it off")
+			ref = true
+			conf.API.Referrer.Enabled = bp(true)
+		} else {
+			convertedOff = true
+		}
 	}
 	trace = append(trace, fmt.Sprintf("root=%s mode=%s push=%v delete=%v blobDelete=%v referrer=%v", rootKind, mode, push, del, blobDel, ref))
 	classes["mode:"+mode] = true
